@@ -15,13 +15,15 @@ CFG = {
             "alphabet + single-character deletion and insertion); each tampered file goes through bare DecryptKey, through a fresh KeyStore "
             "(Unlock + SignHash + recovered signer) and through KeyStore.Import; near-miss passphrases (substitution, deletion, insertion, case "
             "flip, composed/decomposed, empty, doubled) on every format; KeyStore flows ImportECDSA/NewAccount/Unlock/Lock/Export/Import/Update/"
-            "SignHashWithPassphrase/SignTxWithPassphrase/Delete judged step by step; EncryptKey output recomputed by the model. "
+            "SignHashWithPassphrase/SignTxWithPassphrase/Delete judged step by step (every file the keystore writes must carry its address); EncryptKey "
+            "output recomputed by the model; residual probe: files with the address member removed + IV alterations (outside the property, counted as residual:*). "
             "Non-trivial = the real code did not answer with an error (distinct inputs counted).",
     "tie": {"keystore.DecryptKey (decryptKeyV3, decryptKeyV1, getKDFKey, ensureInt)": "corr (Go vs Model.Keystore.decryptKey; KDF/AES/address values supplied by the harness, Keccak recomputed in Lean)",
             "keyStorePassphrase.GetKey via KeyStore.Unlock": "corr (Go vs Model.Keystore.getKey) + direct Spec judgement (signer of a signature made after Unlock)",
+            "KeyStore.Import": "corr (Go vs Model.Keystore.importAccount) + direct Spec judgement",
             "keystore.EncryptKey": "corr (file recomputed by Model.Keystore.encryptKey from key, passphrase, salt, iv, n, p)",
             "encoding/json binding of the key file": "overlay accessor VerifAbstract unmarshals into the repo's own encryptedKeyJSONV1/V3 types; dispatch on the version is in the model",
-            "KeyStore.NewAccount/ImportECDSA/Export/Import/Update/Delete/SignHashWithPassphrase/SignTxWithPassphrase": "direct Spec judgement on the real code per step"},
+            "KeyStore.NewAccount/ImportECDSA/Export/Update/Delete/SignHashWithPassphrase/SignTxWithPassphrase": "direct Spec judgement on the real code per step"},
     "assumptions": ["scrypt, PBKDF2, AES-128-CTR/CBC, Keccak-256 and secp256k1 are parameters of the model (DESIGN.md 2.5); the theorems carry the needed facts as explicit hypotheses (collision-freedom of Keccak on the two MAC inputs, KDF output differing on bytes 16..32, address derivation separating two scalars)",
                     "HMAC zero-pads / pre-hashes its key: a passphrase extended by NUL bytes (or a >64-byte passphrase and its SHA-256) derive the same key; such pairs violate the hypothesis 'KDF output differs' and are outside the near-miss generator (counted as info:* in the histogram)",
                     "encoding/json, os file I/O and the account cache's directory scan are used as they are (Go runtime/stdlib modelled not verified)"],
@@ -29,12 +31,14 @@ CFG = {
                      "go/overlay/aqua/accounts/keystore/c20_access.go (VerifAbstract)"],
 }
 META = {
-    "technique": "Lean 4 proof (round trip, wrong-passphrase and tamper rejection for all keys/passphrases/files over uninterpreted KDF/AES/Keccak; IV defect proved on a witness) tied to aqua/accounts/keystore by differential correspondence",
+    "technique": "Lean 4 proof (round trip, wrong-passphrase and tamper rejection, totality for all keys/passphrases/files over uninterpreted KDF/AES/Keccak) tied to aqua/accounts/keystore by differential correspondence",
     "text": "Theorems roundtrip, roundtrip_keeps_leading_zeros, wrong_pass_rejected, wrong_pass_never_unlocks, tamper_ct_mac_salt_params_rejected, "
-            "tamper_ct_rejected, tamper_mac_rejected, tamper_never_yields_other_key (KeyStore.GetKey level, any tampering), getKey_rejects_iv_tamper, "
-            "decrypt_total_partial hold for every instantiation of the primitives in the Lean model of EncryptKey/DecryptKey/GetKey; "
-            "decryptKey_iv_tamper_witness / decryptKey_iv_tamper_yields_other_key prove that bare DecryptKey does NOT satisfy the tamper clause for the IV "
-            "(known finding), decryptKey_kdf_panic_witness that degenerate KDF parameters crash instead of returning an error (known finding). "
-            "Every run re-checks the proofs and runs the real keystore and the compiled model on >10k key-file/passphrase cases requiring identical outcomes.",
+            "tamper_ct_rejected, tamper_mac_rejected, tamper_never_yields_other_key (KeyStore.GetKey level, any tampering), "
+            "decryptKey_tamper_never_yields_other_key and import_never_yields_other_account (bare DecryptKey / KeyStore.Import on files that carry their "
+            "address, any tampering incl. the IV), decryptKey_rejects_key_of_other_address, decrypt_total (no panic outcome for any file), "
+            "degenerate_kdfparams_are_errors hold for every instantiation of the primitives in the Lean model of EncryptKey/DecryptKey/GetKey/Import "
+            "at /repo >= a73be14, e55659c; decryptKey_no_address_iv_tamper_residual(+_witness) states the one residual: a file WITHOUT an address field "
+            "(never written by this keystore) with an altered IV is opened by bare DecryptKey to another key. Every run re-checks the proofs and runs the real "
+            "keystore and the compiled model on >15k key-file/passphrase cases requiring identical outcomes.",
     "note": GEN + " KeyStore flows other than Unlock are judged directly on the real code (exploration strength), stated in the evidence.",
 }
